@@ -78,6 +78,7 @@ func addDeltas(l lm.List, unit int64) []int64 {
 }
 
 func c09Run(c *core.Ctx) {
+	longRun(c, "add")
 	type scope struct {
 		grid  int64
 		max   int
